@@ -212,6 +212,7 @@ def run_query_case(case):
         op = ev["op"]
         if op == "drain":
             rec["first"] = ev["qi"] not in evaluated       # first evaluation of this expression object
+            rec["b2"] = bool(ev.get("b2"))
         if "qi" in ev:
             evaluated.add(ev["qi"])
         if op == "cfg":
